@@ -4,6 +4,7 @@ import GomlVerif.Driver.C12
 import GomlVerif.Driver.C15
 import GomlVerif.Driver.SemRun
 import GomlVerif.Driver.C11
+import GomlVerif.Driver.C19
 
 def main (args : List String) : IO UInt32 := do
   match args with
@@ -13,4 +14,6 @@ def main (args : List String) : IO UInt32 := do
   | ["c15"] => Goml.Driver.C15.main; return 0
   | ["sem"] => Goml.Driver.SemRun.main; return 0
   | ["c11"] => Goml.Driver.C11.main; return 0
+  | ["c17"] => Goml.Driver.C19.main; return 0
+  | ["c19"] => Goml.Driver.C19.main; return 0
   | _ => IO.eprintln "usage: gomlmodel <c05|…> < lines"; return 2
